@@ -9,6 +9,7 @@
 #include <algorithm>
 #include <atomic>
 #include <cctype>
+#include <deque>
 #include <chrono>
 #include <fstream>
 #include <functional>
@@ -903,22 +904,59 @@ protected:
         requestData = dataStr.substr(0, requestEndPos);
       }
 
-      // Remove processed data from buffer
+      // Remove processed data from buffer and queue the request on its session.
+      // Requests of ONE connection are processed one at a time, in arrival order
+      // (RFC 9112 §9.3.2: responses to pipelined requests MUST be sent in the
+      // order the requests were received). Handing every pipelined request to
+      // the pool at once let handlers of one connection run concurrently, so
+      // responses were written in completion order, and the close of a later
+      // request (Connection: close, parse-error close) could be executed before
+      // earlier responses were written. Different connections still run in
+      // parallel on the pool.
       dataStr = dataStr.substr(requestEndPos);
+      bool startDispatch = false;
+      bool sessionOverloaded = false;
       {
         std::lock_guard<std::mutex> lock(_sessionMutex);
         auto it = _sessionInfo.find(sid);
-        if (it != _sessionInfo.end())
+        if (it == _sessionInfo.end())
         {
-          it->second.buffer = dataStr;
+          return; // Session was closed
+        }
+        it->second.buffer = dataStr;
+        if (it->second.pendingRequests.size() >= MAX_PENDING_REQUESTS)
+        {
+          sessionOverloaded = true; // bound the per-connection backlog
+        }
+        else
+        {
+          it->second.pendingRequests.push_back(std::move(requestData));
+          if (!it->second.dispatchActive)
+          {
+            it->second.dispatchActive = true;
+            startDispatch = true;
+          }
         }
       }
 
-      // Process request in thread pool to avoid blocking transport
+      // Process requests in thread pool to avoid blocking transport
       // Use tryEnqueue for backpressure - reject requests if queue is full
-      if (!_threadPool.tryEnqueue([this, sid, requestData]()
-                                  { processHttpRequest(sid, requestData); }))
+      if (sessionOverloaded ||
+          (startDispatch &&
+           !_threadPool.tryEnqueue([this, sid]() { processPendingRequests(sid); })))
       {
+        if (startDispatch)
+        {
+          // No worker took the session: drop its backlog so a later request can
+          // start a new dispatch (the 503 below closes the connection anyway).
+          std::lock_guard<std::mutex> lock(_sessionMutex);
+          auto it = _sessionInfo.find(sid);
+          if (it != _sessionInfo.end())
+          {
+            it->second.pendingRequests.clear();
+            it->second.dispatchActive = false;
+          }
+        }
         // Thread pool is overloaded, send 503 Service Unavailable
         iora::core::Logger::warning(
           "HttpServer: Rejecting request due to thread pool overload "
@@ -938,6 +976,35 @@ protected:
           "active threads: " + std::to_string(_threadPool.getActiveThreadCount()) + "/" +
           std::to_string(_threadPool.getTotalThreadCount()) + ")");
       }
+    }
+  }
+
+  /// \brief Worker-side loop: process the queued requests of one session
+  /// strictly in arrival order. At most one worker runs this per session
+  /// (SessionInfo::dispatchActive), so the responses of a connection are
+  /// written in request order. Ends when the backlog is empty or the session
+  /// is gone (closed connection / stop()).
+  void processPendingRequests(SessionId sid)
+  {
+    for (;;)
+    {
+      std::string requestData;
+      {
+        std::lock_guard<std::mutex> lock(_sessionMutex);
+        auto it = _sessionInfo.find(sid);
+        if (it == _sessionInfo.end())
+        {
+          return; // connection closed: nothing left to answer
+        }
+        if (it->second.pendingRequests.empty())
+        {
+          it->second.dispatchActive = false;
+          return;
+        }
+        requestData = std::move(it->second.pendingRequests.front());
+        it->second.pendingRequests.pop_front();
+      }
+      processHttpRequest(sid, requestData);
     }
   }
 
@@ -2365,6 +2432,12 @@ private:
     std::uint16_t peerPort = 0;
     bool connectionKeepAlive = true;
     std::string httpVersion = "1.1"; // Default to HTTP/1.1
+
+    // Complete requests not yet processed, in arrival order, and whether a pool
+    // task (processPendingRequests) currently owns this backlog. Both guarded by
+    // _sessionMutex.
+    std::deque<std::string> pendingRequests;
+    bool dispatchActive = false;
 
     // Buffer management constants
     static constexpr std::size_t MAX_BUFFER_SIZE = 1024 * 1024;    // 1MB max per session
